@@ -1,3 +1,4 @@
+import GenlmModel.Proofs.GenLink.ChartProduct
 import GenlmModel.Proofs.GenLink.Cfglm
 import Batteries.Tactic.Alias
 import GenlmModel.Proofs.AddEos
@@ -27,4 +28,9 @@ alias heads_sum_to_one_limit := Genlm.ln_heads_sum_one_ZL
 alias total_weight_one_limit := Genlm.ln_ZL_one
 alias eos_wrapping_limit := Genlm.addEOS_WL
 alias eos_append_limit := Genlm.addEOS_WL_append
+
+/-! ## re-checked tie to the source: the definitions REGENERATED from the Python functions on every run
+(`Generated/Builders.lean` / `Generated/Folds.lean`, by `harness/translate.py`) are the hand-written models the theorems here are about -/
+alias gen_Chart_product_eq_model := Genlm.gen_Chart_product_eq_model
+alias gen_Chart_product_in_locally_normalize := Genlm.gen_Chart_product_lnWeight
 end Genlm.Props.C20
